@@ -58,7 +58,7 @@ def judge_ranges(ctx, cases, outs):
 
 def run(ctx):
     ctx.proofs(["Proofs/RangesProofs"], model_targets=["Ranges"])
-    exe, err = vlib.build_harness()
+    exe, err = vlib.build_harness("ranges")
     if exe is None:
         ctx.broken("harness-build", err)
         return ctx.finish(rule="-")
@@ -99,7 +99,7 @@ def run(ctx):
 
 def replay(ctx, path):
     obj = json.load(open(path))
-    exe, err = vlib.build_harness()
+    exe, err = vlib.build_harness("ranges")
     c = obj["input"]
     rc, outs, e = vlib.run_driver(exe, "ranges", [c])
     vs = judge_ranges(ctx, [c], outs)
